@@ -118,6 +118,14 @@ def instructions_for(year, fname, form, cat):
     order = tr.get('_order') or labels
     for ln, (text, src) in texts.items():
         ins = instr.parse(text, ln, order)
+        if ins is not None and ins.expr is not None and ins.expr[0] == 'addrows':
+            # "Add the amounts on line 1": the per-payer rows <n>_amount_<k> of this form
+            rows = sorted((l.base_name() for l in form.fields() if re.match(rf'^{ins.expr[1]}_amount_\d+$', l.base_name())),
+                          key=lambda x: int(x.rsplit('_', 1)[1]))
+            if not rows:
+                ins = None
+            else:
+                ins.expr = ('add', rows)
         if ins is not None:
             out[ln] = (ins, src)
         else:
